@@ -363,7 +363,7 @@ class Statement(ConditionalStatementBase):
                 .copy(condition=mapper(self.condition)))
 
 
-class Nop(NopBase):
+class Nop(NopBase, Statement):
     exec_method = intern("exec_Nop")
 
 
